@@ -109,16 +109,24 @@ func c08Constructs() []c08Construct {
 			return c08SO{"{% filter " + strings.Join(ch, "|") + " %}" + in.src + "{% endfilter %}", out}
 		}})
 	}
+	// an embed whose override block holds the inner content: inside loops, captures and macros the same embed tag runs
+	// several times under different writers
+	cs = append(cs, c08Construct{"embed with an overriding block", func(b *c08Builder, in c08SO, id int) c08SO {
+		return c08SO{"{% embed 'c08emb' %}{% block eb %}" + in.src + "{% endblock %}{% endembed %}", "<e>" + in.out + "</e>"}
+	}})
 	return cs
 }
 
 const c08MacroIdx = 14
+const c08EmbedIdx = 22
 
 var c08Leaves = []c08SO{{"t", "t"}, {"{{ v }}", "V"}, {"{{ parent() }}", "BVP"},
 	// a capture whose body is exactly one print: the variable holds the printed text (a string), not the value
 	{"{% set q %}{{ v }}{% endset %}{{ kind(q) }}", "<string:V>"},
 	{"{% set q %}{{ n }}{% endset %}{{ kind(q) }}{{ q|kind }}{% set q2 %}{{ nil }}{% endset %}{{ kind(q2) }}", "<string:0><string:0><string:>"},
 }
+
+const c08Emb = "<e>{% block eb %}d{% endblock %}</e>"
 
 const c08Base = "<<{% block main %}B{{ v }}{% filter up %}p{% endfilter %}{% endblock %}>>"
 
@@ -154,7 +162,17 @@ func c08Build(inherit bool, chains [][]int, leaves []int) (tpls map[string]strin
 			return nil, "", false
 		}
 		so := leaf
-		for _, ci := range chain {
+		for i, ci := range chain {
+			if ci == c08EmbedIdx {
+				for _, inner := range chain[i+1:] {
+					if inner == c08MacroIdx {
+						return nil, "", false // _self inside an embed's override is not the host template: not claimed
+					}
+				}
+			}
+			if ci == c08EmbedIdx && leaf.src == "{{ parent() }}" {
+				return nil, "", false // parent() inside an embed's override refers to the embedded template's block
+			}
 			if ci == c08MacroIdx+1 && leaf.src == "{{ parent() }}" {
 				return nil, "", false // parent() inside a nested block refers to that block, which has no parent
 			}
@@ -180,14 +198,68 @@ func c08Build(inherit bool, chains [][]int, leaves []int) (tpls map[string]strin
 	body.out += "END"
 	if inherit {
 		return map[string]string{
+			"c08emb":  c08Emb,
 			"c08base": c08Base,
 			"main":    "{% extends 'c08base' %}ignored{% block main %}" + body.src + "{% endblock %}ignored too",
 		}, "<<" + body.out + ">>", true
 	}
-	return map[string]string{"main": b.macros.String() + body.src}, body.out, true
+	return map[string]string{"main": b.macros.String() + body.src, "c08emb": c08Emb}, body.out, true
+}
+
+// c08SamePos: two constant constructs of the same kind at the same line and column of two different templates that
+// take part in one execution (importer and macro file, layout and child): each yields its own content.
+func c08SamePos(kind, rel int) core.Result {
+	mk := func(body string) string {
+		switch kind {
+		case 0:
+			return "{% filter up %}" + body + "{% endfilter %}"
+		case 1:
+			return "{% set c %}" + body + "{% endset %}{{ c }}"
+		case 2:
+			return "{% filter wrap %}{# note #}" + body + "{% endfilter %}"
+		default:
+			return "{% for i in [1] %}" + body + "{% endfor %}"
+		}
+	}
+	res := func(body string) string {
+		switch kind {
+		case 0:
+			return strings.ToUpper(body)
+		case 2:
+			return "[" + body + "]"
+		}
+		return body
+	}
+	var tpls map[string]string
+	var want string
+	switch rel {
+	case 0: // importer and macro file: "{% import 'mf' as q %}" and "{% macro mmmmmmmm() %}" are both 22 bytes long
+		tpls = map[string]string{"main": "{% import 'mf' as q %}" + mk("name") + "|{{ q.mmmmmmmm() }}|" + mk("again"),
+			"mf": "{% macro mmmmmmmm() %}" + mk("intro") + "{% endmacro %}"}
+		want = res("name") + "|" + res("intro") + "|" + res("again")
+	case 1: // layout and child: "{% extends 'lay' %}{% block b %}" vs 32 bytes of text in the layout
+		pre := "{% extends 'lay' %}{% block b %}"
+		tpls = map[string]string{"main": pre + mk("child") + "{% endblock %}",
+			"lay": strings.Repeat("x", len(pre)) + mk("layout") + "<{% block b %}{% endblock %}>"}
+		want = strings.Repeat("x", len(pre)) + res("layout") + "<" + res("child") + ">"
+	default: // including and included template, the same offsets
+		tpls = map[string]string{"main": "ab" + mk("outer") + "{% include 'inc' %}" + mk("tail"), "inc": "cd" + mk("inner")}
+		want = "ab" + res("outer") + "cd" + res("inner") + res("tail")
+	}
+	out, err, pan := tryExec(c08Env(tpls), "main", map[string]stick.Value{"v": "V"})
+	if pan != "" || err != nil {
+		return core.Violation("error", fmt.Sprintf("%v: %v %s", tpls, err, pan))
+	}
+	if out != want {
+		return core.Violation("routing", fmt.Sprintf("%v renders\n    %q, want\n    %q", tpls, out, want))
+	}
+	return core.Okay(true, out)
 }
 
 func c08Run(c core.Case) core.Result {
+	if c.Fam == "samepos" {
+		return c08SamePos(c.N[0], c.N[1])
+	}
 	// N = [inherit, nchains, (len, constructs..., leaf)...]
 	inherit := c.N[0] == 1
 	var chains [][]int
@@ -279,6 +351,13 @@ func c08Levels(tier string) []core.Level {
 			}
 		}},
 	}
+	lv = append(lv, core.Level{Name: "two constant constructs (filter section, capture, filter section with a comment, loop) at the same line and column of two templates of one execution (importer / macro file, layout / child, including / included)", Gen: func(emit func(core.Case)) {
+		for kind := 0; kind < 4; kind++ {
+			for rel := 0; rel < 3; rel++ {
+				emit(core.Case{Fam: "samepos", N: []int{kind, rel}})
+			}
+		}
+	}})
 	return lv
 }
 
